@@ -9,7 +9,7 @@ Trace == ndJsonDeserialize(TraceFile)
 InstallSt(st) ==
   /\ fx' = st.fx /\ frac' = st.frac /\ tok' = st.tok /\ coin' = st.coin /\ sh' = st.sh /\ sh1' = st.sh1 /\ rew' = st.rew
   /\ allow' = st.allow /\ ubd' = st.ubd /\ red' = st.red /\ pool' = st.pool /\ calls' = st.calls /\ parked' = st.parked
-  /\ switch' = st.switch /\ ncall' = st.ncall /\ UNCHANGED napp
+  /\ switch' = st.switch /\ slashed' = st.slashed /\ ncall' = st.ncall /\ UNCHANGED napp
 
 PInit == Init /\ l = 1
 PNext == /\ l <= Len(Trace) /\ l' = l + 1
@@ -22,6 +22,7 @@ P_C10_AllowanceBound    == [][R(A_C10_AllowanceBound)]_<<vars, l>>
 P_C10_WriteNeedsCall    == [][R(A_C10_WriteNeedsCall)]_<<vars, l>>
 P_C10_DisabledNeverRuns == [][R(A_C10_DisabledNeverRuns)]_<<vars, l>>
 P_C10_RefusedIsNoop     == [][R(A_C10_RefusedIsNoop)]_<<vars, l>>
+P_C10_RevertedIsNoop    == [][R(A_C10_RevertedIsNoop)]_<<vars, l>>
 
 Consumed == TLCGet("stats").diameter - 1 = Len(Trace)
 =============================================================================
